@@ -32,6 +32,14 @@ CHECKS = {
         design_ref="DESIGN.md §4 C03",
         note="DROP of an unwired table and tag/self-loop inheritance on RENAME are relational (either outcome accepted); facts come from the statement tap.",
     ),
+    "C11": dict(
+        technique="differential monitor across worker processes with different PYTHONHASHSEED + in-process repetition and accessor-order permutation",
+        category="exploration",
+        text="The canonical public record (summaries, column paths, both exports, text summary, outcome) of every corpus/TPC-DS/order-sensitive case is "
+             "compared across processes started with different hash seeds, across a repetition in the same process and across permuted/repeated accessor calls.",
+        design_ref="DESIGN.md §4 C11",
+        note="Anonymous subquery names are canonicalised from the node's own text; exports compared as sorted node/edge lists without edge ids; path order is compared only when no generated name takes part in it.",
+    ),
     "C15": dict(
         technique="controlled-scheduler history monitor: real threads gated per step (and at sys.monitoring LINE events), per-thread sequential model",
         category="exploration",
